@@ -1,6 +1,7 @@
 (* Executable checkers used by the correspondence run of C15 (and the tokenizer half of C04):
    evaluated with vm_compute on the token streams the harness observed on the implementation. *)
 From P2 Require Import Base.Prelude Lex.Token Lex.Tok.
+From P2 Require Syn.Ast Syn.Parse Syn.ParsePos.
 Local Open Scope N_scope.
 
 (* configuration as data: operators, text operators, keywords, comments, comfort,
@@ -49,10 +50,38 @@ Fixpoint layout_wf (l : list ritem) : bool :=
   | _ :: r => layout_wf r
   end.
 
+(* what Parser.Parse did on the input (value configuration, every identifier known): kind 0 = an AST, 1 = an error,
+   2 = a panic escaped, 3 = not observed (configuration without a parser); the line stored in the error + 1
+   (VerifLine: errorWithLine.line; 0 = the error was built from TokenEof, whose line is -1); the number images of the
+   input ParseNumber rejects; the parser tables (binary operators in priority order, prefix operators, string handler) *)
+Definition c15_ptab := (list str * list str * bool)%type.
+Definition c15_par := (N * N * list str * c15_ptab)%type.
+Definition p_none : c15_ptab := ([], [], false).
+Definition no_parse : c15_par := (3, 0, [], p_none).
+
+Definition par15_cfg (bad : list str) (t : c15_ptab) : Parse.pcfg :=
+  let '(ops, unary, strh) := t in
+  Parse.mkPcfg ops unary (Some (fun img => if Parse.mem_str img bad then None else Some img))
+               (if strh then Some (fun s => s) else None).
+
+(* the identifier function the harness passes: every name is a variable *)
+Definition any_ident : Parse.idents := [Parse.SMap []].
+
+(* kind and line + 1 of the position-carrying parser model on the observed tokens *)
+Definition par15_model (p : c15_par) (toks : list token) : N * N :=
+  let '(_, _, bad, t) := p in
+  match ParsePos.parse_pos (par15_cfg bad t) any_ident toks with
+  | ParsePos.QOk _ => (0, 0)
+  | ParsePos.QErr (Some l) => (1, l + 1)
+  | ParsePos.QErr None => (1, 0)
+  | ParsePos.QPanic => (2, 0)
+  | ParsePos.QOOF => (4, 0)
+  end.
+
 (* id, configuration, layout (empty for the malformed stream), input runes (malformed stream only: the input
-   of a layout case is the text of its layout), observed (type, image, line) *)
-Definition c15_case := (N * c15_cfg * list ritem * list N * list (N * str * N))%type.
-Definition c15_id (c : c15_case) : N := let '(id, _, _, _, _) := c in id.
+   of a layout case is the text of its layout), observed (type, image, line), what the parser did *)
+Definition c15_case := (N * c15_cfg * list ritem * list N * list (N * str * N) * c15_par)%type.
+Definition c15_id (c : c15_case) : N := let '(id, _, _, _, _, _) := c in id.
 
 Definition obs_tokens (o : list (N * str * N)) : list token :=
   map (fun t => mkTok (ttype_of_N (fst (fst t))) (snd (fst t)) (snd t)) o.
@@ -67,12 +96,17 @@ Fixpoint toks_eqb (a b : list token) : bool :=
 Definition case_input (items : list ritem) (raw : list N) : list N :=
   match items with [] => raw | _ => layout_text (map item_of items) end.
 
-(* model of the implementation = implementation *)
+(* model of the implementation = implementation: the scanner model yields exactly the observed token stream, and the
+   position-carrying parser model (Syn/ParsePos.v), run on the observed tokens, gives the outcome kind Parser.Parse gave
+   and - for an error - the line Parser.Parse stored in it *)
 Definition c15_im (c : c15_case) : bool :=
-  let '(_, d, items, raw, o) := c in
+  let '(_, d, items, raw, o, p) := c in
   let input := case_input items raw in
   match tokenize_fuel (length input + 2) (cfg_of d) input with
   | Some ts => toks_eqb ts (obs_tokens o)
+               && (let '(pk, ln, _, _) := p in
+                   (pk =? 3) || (let '(mk, ml) := par15_model p (obs_tokens o) in
+                                 (mk =? pk) && ((negb (pk =? 1)) || (ml =? ln))))
   | None => false
   end.
 
@@ -80,7 +114,7 @@ Definition c15_im (c : c15_case) : bool :=
    observed tokens are exactly the tokens the layout denotes, each on the line its first rune is on.
    The malformed stream (no layout) has no specification beyond "the scanner returned", which the harness observed. *)
 Definition c15_is (c : c15_case) : bool :=
-  let '(_, d, items, input, o) := c in
+  let '(_, d, items, input, o, _) := c in
   let '(_, _, _, cm, _, _, _) := d in
   match items with
   | [] => true
